@@ -78,7 +78,8 @@ func fmtDpkg() *format {
 					"Maintainer: GNU Libc Maintainers <debian-glibc@lists.debian.org>",
 					"Architecture: amd64",
 					"Multi-Arch: same",
-					"Source: src-" + r.Name + " (" + r.Version + ")",
+					// the source package has its own name and version (binNMU, split packages): decoy values
+					"Source: src-" + r.Name + " (9.9.9-1)",
 					"Depends: libgcc-s1, libcrypt1 (>= 1:4.4.10-10)",
 					"Conffiles:",
 					" /etc/ld.so.conf.d/x86_64-linux-gnu.conf d4e7a7b88a71b5ffd9e2644e71a0cfab",
